@@ -91,6 +91,8 @@ type Kernel struct {
 	Trace    []string
 	nsys     int
 	FaultsOn bool
+	// FailAlways: syscall name → errno; every invocation fails (persistent failure)
+	FailAlways map[string]int
 	Faulted  string
 	MaxFault int
 	nFault   int
@@ -208,6 +210,11 @@ func (k *Kernel) enter(name string, detail string) int {
 		panic(&kernelCrash{})
 	}
 	k.Trace = append(k.Trace, name+"("+detail+")")
+	if e, ok := k.FailAlways[name]; ok {
+		k.Faulted = name
+		k.Trace[len(k.Trace)-1] += fmt.Sprintf(" = errno %d (persistent)", e)
+		return e
+	}
 	if k.FaultsOn && k.nFault < k.MaxFault {
 		if m.Choose(2, "fault") == 1 {
 			k.nFault++
@@ -487,6 +494,76 @@ func (k *Kernel) sysPread(fd int, buf Slice, off *Term) (*Term, Iface) {
 		n = s.Add(n, s.Ite(in, s.Const(64, 1), s.Const(64, 0)))
 	}
 	return n, Iface{}
+}
+
+func (k *Kernel) sysSeek(fd int, off *Term, whence int) (*Term, Iface) {
+	m := k.m
+	s := m.S
+	if e := k.enter("lseek", fmt.Sprintf("%d,%s,%d", fd, off, whence)); e != 0 {
+		return s.Const(64, ^uint64(0)), k.errno(e)
+	}
+	f, en := k.file(fd, false, false)
+	if en != 0 {
+		return s.Const(64, ^uint64(0)), k.errno(en)
+	}
+	o := m.ConcreteInt(off, "lseek offset")
+	switch whence {
+	case 0:
+	case 1:
+		o += f.off
+	case 2:
+		o += int(m.Concretize(f.ino.vol.Size, "file size for lseek"))
+	default:
+		return s.Const(64, ^uint64(0)), k.errno(eINVAL)
+	}
+	if o < 0 {
+		return s.Const(64, ^uint64(0)), k.errno(eINVAL)
+	}
+	f.off = o
+	return s.Const(64, uint64(o)), Iface{}
+}
+
+// sysRead: read(2) at the descriptor offset.
+func (k *Kernel) sysRead(fd int, buf Slice) (*Term, Iface) {
+	m := k.m
+	s := m.S
+	if e := k.enter("read", fmt.Sprintf("%d,len=%d", fd, buf.Len)); e != 0 {
+		return s.Const(64, ^uint64(0)), k.errno(e)
+	}
+	f, en := k.file(fd, false, true)
+	if en != 0 {
+		return s.Const(64, ^uint64(0)), k.errno(en)
+	}
+	size := int(m.Concretize(f.ino.vol.Size, "file size for read"))
+	arr := (*m.cell(buf.Base)).(*ArrayV)
+	n := 0
+	for j := 0; j < buf.Len && f.off+j < size; j++ {
+		arr.E[buf.Off+j] = k.cellAt(f.ino, &f.ino.vol, f.off+j)
+		n++
+	}
+	f.off += n
+	return s.Const(64, uint64(n)), Iface{}
+}
+
+func (k *Kernel) sysFaccessat(dirfd int, path string) Iface {
+	if e := k.enter("faccessat", fmt.Sprintf("%d,%q", dirfd, path)); e != 0 {
+		return k.errno(e)
+	}
+	dir, en := k.dirOf(dirfd)
+	if en != 0 && !strings.HasPrefix(path, "/") {
+		return k.errno(en)
+	}
+	if dir == nil {
+		dir = k.root
+	}
+	_, _, ent, en := k.resolve(dir, path)
+	if en != 0 {
+		return k.errno(en)
+	}
+	if ent == nil {
+		return k.errno(eNOENT)
+	}
+	return Iface{}
 }
 
 func (k *Kernel) sysFsync(fd int) Iface {
@@ -970,6 +1047,20 @@ func init() {
 		n, e := m.K.sysPwrite(intArg(m, a[0], "fd"), m.SliceBytes(a[1].(Slice)), nil, "write")
 		return Tuple{n, e}
 	})
+	reg("Seek", func(m *Machine, fn *ssa.Function, a []Value) Value {
+		n, e := m.K.sysSeek(intArg(m, a[0], "fd"), a[1].(*Term), intArg(m, a[2], "whence"))
+		return Tuple{n, e}
+	})
+	reg("Read", func(m *Machine, fn *ssa.Function, a []Value) Value {
+		n, e := m.K.sysRead(intArg(m, a[0], "fd"), a[1].(Slice))
+		return Tuple{n, e}
+	})
+	reg("Faccessat", func(m *Machine, fn *ssa.Function, a []Value) Value {
+		return m.K.sysFaccessat(intArg(m, a[0], "dirfd"), concStrArg(m, a[1], "path"))
+	})
+	reg("Access", func(m *Machine, fn *ssa.Function, a []Value) Value {
+		return m.K.sysFaccessat(-100, concStrArg(m, a[0], "path"))
+	})
 	reg("Mkdirat", func(m *Machine, fn *ssa.Function, a []Value) Value {
 		return m.K.sysMkdirat(intArg(m, a[0], "dirfd"), concStrArg(m, a[1], "path"))
 	})
@@ -1023,6 +1114,18 @@ func init() {
 	})
 	hreg("verifKernelFaults", func(m *Machine, fn *ssa.Function, a []Value) Value {
 		m.K.FaultsOn = a[0].(*Term).IsTrue()
+		return nil
+	})
+	hreg("verifKernelFailAlways", func(m *Machine, fn *ssa.Function, a []Value) Value {
+		if m.K.FailAlways == nil {
+			m.K.FailAlways = map[string]int{}
+		}
+		name := concStrArg(m, a[0], "syscall")
+		if name == "" {
+			m.K.FailAlways = nil
+			return nil
+		}
+		m.K.FailAlways[name] = intArg(m, a[1], "errno")
 		return nil
 	})
 	hreg("verifKernelFaulted", func(m *Machine, fn *ssa.Function, a []Value) Value {
